@@ -48,8 +48,9 @@ fn class(e: &anchor_lang::solana_program::program_error::ProgramError) -> u64 {
 }
 
 fn board_str(b: &[LeaderEntry], ids: &dyn Fn(&Pubkey) -> i64) -> String {
-    let v: Vec<String> = b.iter().map(|e| format!("({}, {})", z(ids(&e.address)), z(e.volume))).collect();
-    format!("[{}]", v.join("; "))
+    let v: Vec<String> = b.iter().map(|e| format!("(E {} {})", z(ids(&e.address)), z(e.volume))).collect();
+    // `a :: b :: nil` parses ~50x faster in coqc 8.16 than the `[a; b]` notation
+    if v.is_empty() { "nil".into() } else { format!("({} :: nil)", v.join(" :: ")) }
 }
 
 struct World {
@@ -123,7 +124,7 @@ fn history(rng: &mut Rng) {
         _ => (start, end, thr, dur, cap, win),
     };
 
-    let ntr = 2 + rng.below(9);
+    let ntr = if rng.chance(2, 3) { 6 + rng.below(5) } else { 2 + rng.below(4) };
     let mut traders: Vec<u64> = (1..=ntr).collect();
     if rng.chance(1, 4) {
         traders.push(0);
@@ -167,7 +168,7 @@ fn history(rng: &mut Rng) {
     let r = g6rt::run(gmsol_competition::entry, &pid, &mut w.store, &[m(A_PAYER, true, true), m(A_COMP, false, true), m(A_SYSTEM, false, false)], &data);
     let cfg = format!("{} {} {} {} {} {} {} {}", z(t0), z(start), z(end), z(thr), z(dur), z(cap), b(only_inc), z(win));
     if let Err(e) = &r {
-        emit("init/rejected", &format!("Init {cfg} {}", class(e)));
+        g6rt::emit("init/rejected", &format!("Init {cfg} {}", class(e)));
         return;
     }
     {
@@ -176,9 +177,10 @@ fn history(rng: &mut Rng) {
     }
 
     // ---- ops ----
-    let nops = 5 + { let n_ = if rng.chance(1, 4) { 120 } else { 45 }; rng.below(n_) } as usize;
+    let nops = 5 + { let n_ = if rng.chance(1, 6) { 110 } else { 40 }; rng.below(n_) } as usize;
     let mut now = t0;
     let mut out: Vec<String> = vec![];
+    let mut prev_obs = format!("{} None nil", z(end));
     let (mut n_ext, mut n_trunc, mut n_close, mut n_err) = (0, 0, 0, 0);
     // seed sizes per trader so that trades look like position size changes
     let mut size: Vec<u128> = traders.iter().map(|_| 0u128).collect();
@@ -189,10 +191,12 @@ fn history(rng: &mut Rng) {
             0..=7 => 0,
             8..=13 => rng.below(3) as i64,
             14..=16 => rng.below(win as u64 * 2 + 2) as i64,
-            17 => rng.below(60) as i64,
-            18 => cur_end.saturating_sub(now).max(0).saturating_add(rng.below(3) as i64 - 1).max(0),
+            17 => rng.below(20) as i64,
+            18 if rng.chance(1, 3) => cur_end.saturating_sub(now).max(0).saturating_add(rng.below(3) as i64 - 1).max(0),
+            18 => 1,
             _ => start.saturating_sub(now).max(0),
         };
+        let step = if now < start && rng.chance(1, 3) { start.saturating_sub(now).max(0) } else { step };
         now = now.saturating_add(step);
         if !mono && rng.chance(1, 6) {
             now = match rng.below(3) {
@@ -208,13 +212,13 @@ fn history(rng: &mut Rng) {
         let pi = w.tidx(k);
         let exists = w.part(k).is_some();
         let kind = rng.below(100);
-        let (opstr, res) = if (!exists && kind < 70) || kind < 6 {
+        let (opstr, res) = if (!exists && kind < 85) || kind < 4 {
             // create_participant_idempotent
             let data = gmsol_competition::instruction::CreateParticipantIdempotent {}.data();
             let r = g6rt::run(gmsol_competition::entry, &pid, &mut w.store,
                 &[m(A_PAYER, true, true), m(A_COMP, false, false), m(pi + 1, false, true), m(pi, false, false), m(A_SYSTEM, false, false)], &data);
             (format!("Create {} {}", z(k), z(now)), r)
-        } else if kind < 6 + if mono { 6 } else { 3 } {
+        } else if kind < 4 + if mono { 5 } else { 3 } {
             let data = gmsol_competition::instruction::CloseParticipant {}.data();
             let r = g6rt::run(gmsol_competition::entry, &pid, &mut w.store,
                 &[m(pi, true, true), m(A_COMP, false, false), m(pi + 1, false, true)], &data);
@@ -222,16 +226,16 @@ fn history(rng: &mut Rng) {
             (format!("Close {} {}", z(k), z(now)), r)
         } else {
             // on_executed
-            let success = !rng.chance(1, 25);
-            let has_ev = !rng.chance(1, 30);
-            let cv: u8 = if rng.chance(1, 40) { 1 } else { 0 };
-            let akind: u8 = if rng.chance(1, 40) { rng.below(7) as u8 } else { ORDER_KIND };
-            let extra: u8 = if rng.chance(1, 40) { rng.below(2) as u8 } else { 2 + rng.below(3) as u8 };
-            let auth_ok = !rng.chance(1, 40);
+            let success = !rng.chance(1, 40);
+            let has_ev = !rng.chance(1, 40);
+            let cv: u8 = if rng.chance(1, 60) { 1 } else { 0 };
+            let akind: u8 = if rng.chance(1, 60) { rng.below(7) as u8 } else { ORDER_KIND };
+            let extra: u8 = if rng.chance(1, 40) { rng.below(2) as u8 } else if rng.chance(1, 10) { 3 + rng.below(3) as u8 } else { 2 };
+            let auth_ok = !rng.chance(1, 60);
             let ev_user = if rng.chance(1, 40) { traders[rng.below(traders.len() as u64) as usize] } else { k };
             let before = size[ti];
             let c = w.comp();
-            let delta: u128 = match rng.below(16) {
+            let delta: u128 = match rng.below(24) {
                 0 => 0,
                 1 => c.volume_threshold,
                 2 => c.volume_threshold.saturating_sub(1),
@@ -278,8 +282,12 @@ fn history(rng: &mut Rng) {
                 if c2.end_time != old_end { n_ext += 1; }
                 if old_len == 5 && !was_on && c2.leaderboard.iter().any(|e| e.address == tk) { n_trunc += 1; }
             }
-            let evs = if has_ev { format!("(Some ({}, {}, {}))", z(ev_user), z(before), z(after)) } else { "None".into() };
-            (format!("Trade {} {} {} {} {} {} {} {}", z(k), z(now), b(success), evs, cv, akind, extra, b(auth_ok)), r)
+            let evs = if has_ev { format!("(P3 {} {} {})", z(ev_user), z(before), z(after)) } else { "None".into() };
+            if success && has_ev && ev_user == k && cv == 0 && akind == ORDER_KIND && extra == 2 && auth_ok {
+                (format!("T {} {} {} {}", z(k), z(now), z(before), z(after)), r)
+            } else {
+                (format!("Trade {} {} {} {} {} {} {} {}", z(k), z(now), b(success), evs, cv, akind, extra, b(auth_ok)), r)
+            }
         };
         let rc = match &res { Ok(()) => 0, Err(e) => { n_err += 1; class(e) } };
         let c = w.comp();
@@ -288,11 +296,17 @@ fn history(rng: &mut Rng) {
         let ps = match w.part(k) {
             Some(p) => {
                 assert!(p.trader == tk && p.competition == comp_key);
-                format!("(Some ({}, {}, {}))", z(p.volume), z(p.last_updated_at), z(p.merged_volume))
+                format!("(P3 {} {} {})", z(p.volume), z(p.last_updated_at), z(p.merged_volume))
             }
             None => "None".into(),
         };
-        out.push(format!("({opstr}, Obs {rc} {} {trig} {} {ps})", z(c.end_time), board_str(&c.leaderboard, &ids)));
+        let cur = format!("{} {trig} {}", z(c.end_time), board_str(&c.leaderboard, &ids));
+        if cur == prev_obs {
+            out.push(format!("(S ({opstr}) (Same {rc} {ps}))"));
+        } else {
+            out.push(format!("(S ({opstr}) (Obs {rc} {cur} {ps}))"));
+            prev_obs = cur;
+        }
     }
     let tag = format!(
         "hist/{}{}{}{}{}",
@@ -302,7 +316,7 @@ fn history(rng: &mut Rng) {
         if n_close > 0 { "+close" } else { "" },
         if n_err > 0 { "+err" } else { "" }
     );
-    emit(&tag, &format!("Hist {cfg} [{}]", out.join("; ")));
+    g6rt::emit(&tag, &format!("Hist {cfg} ({} :: nil)", out.join(" :: ")));
 }
 
 fn direct_update(rng: &mut Rng) {
@@ -331,7 +345,7 @@ fn direct_update(rng: &mut Rng) {
     let r = no_panic(std::panic::AssertUnwindSafe(|| { verif_hooks::update_leaderboard(&mut comp, &part); comp.leaderboard.clone() }));
     let ids = |key: &Pubkey| -> i64 { for k in 0..64u64 { if trader_key(k) == *key { return k as i64; } } -1 };
     let rs = match &r { Some(bd) => format!("(Some {})", board_str(bd, &ids)), None => "None".into() };
-    emit(if sorted { "upd/wellformed" } else { "upd/arbitrary" }, &format!("Upd {} {} {} {rs}", board_str(&board, &ids), z(trader), z(vol)));
+    g6rt::emit(if sorted { "upd/wellformed" } else { "upd/arbitrary" }, &format!("Upd {} {} {} {rs}", board_str(&board, &ids), z(trader), z(vol)));
 }
 
 fn direct_extend(rng: &mut Rng) {
@@ -349,20 +363,22 @@ fn direct_extend(rng: &mut Rng) {
     let r = no_panic(std::panic::AssertUnwindSafe(|| verif_hooks::extend_competition_time(&mut comp, &part, 1).is_ok()));
     let rs = match r { Some(true) => format!("(Some {})", z(comp.end_time)), _ => "None".into() };
     let trig_ok = comp.extension_triggerer == Some(trader_key(7));
-    emit(if comp.end_time != end { "ext/moved" } else { "ext/unchanged" }, &format!("Ext {} {} {} {} {rs} {}", z(end), z(dur), z(cap), z(now), b(trig_ok)));
+    g6rt::emit(if comp.end_time != end { "ext/moved" } else { "ext/unchanged" }, &format!("Ext {} {} {} {} {rs} {}", z(end), z(dur), z(cap), z(now), b(trig_ok)));
 }
 
 fn main() {
     let a = args();
     let mut rng = Rng::new(a.seed);
-    silence_panics();
+
     g6rt::install();
+    g6rt::quiet();
     let _ = AccountSerialize::try_serialize(&Participant { bump: 0, competition: Pubkey::default(), trader: Pubkey::default(), volume: 0, last_updated_at: 0, merged_volume: 0 }, &mut Vec::new());
     for i in 0..a.n {
         match i % 10 {
-            0..=5 => history(&mut rng),
-            6 | 7 => direct_update(&mut rng),
+            0..=3 => history(&mut rng),
+            4..=7 => direct_update(&mut rng),
             _ => direct_extend(&mut rng),
         }
     }
+    g6rt::finish();
 }
